@@ -6,7 +6,7 @@ from __future__ import annotations
 import ast
 import sympy as sp
 
-from .values import (Val, Num, StrV, NoneV, NONE, BoolV, CondV, TupleV, ListV, DictV, SetV, SliceV, ObjV,
+from .values import (Val, Num, StrV, NoneV, NONE, BoolV, CondV, TupleV, ListV, DictV, SetV, SliceV, ObjV, PyFuncV,
                      ClassV, FuncV, ExtV, BoundBuiltin, OpaqueV, SigParamV, SignatureV, Unsupported,
                      DimensionError, UNITS, UNIT_SYMS, F, NONE_S, mk_ite)
 from .model import ClassInfo, FunctionInfo, ModuleInfo, norm
@@ -273,6 +273,13 @@ def binop(ev, op, a, b, node, fr):
         return ev.ite(a.cond, binop(ev, op, a.a, b, node, fr), binop(ev, op, a.b, b, node, fr))
     if isinstance(b, PhiV):
         return ev.ite(b.cond, binop(ev, op, a, b.a, node, fr), binop(ev, op, a, b.b, node, fr))
+    if isinstance(a, ObjV) or isinstance(b, ObjV):
+        o = a if isinstance(a, ObjV) else b
+        m = o.cls.find_method("__array_ufunc__")
+        opname = {ast.Add: "add", ast.Sub: "subtract", ast.Mult: "multiply", ast.Div: "divide", ast.FloorDiv: "floor_divide",
+                  ast.Mod: "remainder"}.get(type(op))
+        if m is not None and opname is not None:
+            return ev.call(m, [ExtV(f"ufunc:{opname}:2:1"), StrV("__call__"), a, b], {}, self_val=o, depth=(fr.depth + 1 if fr is not None else 1))
     if isinstance(a, BoolV) and isinstance(b, BoolV) and isinstance(op, (ast.BitAnd, ast.BitOr, ast.BitXor)):
         return BoolV({ast.BitAnd: a.b and b.b, ast.BitOr: a.b or b.b, ast.BitXor: a.b != b.b}[type(op)])
     if isinstance(a, BoolV):
@@ -374,7 +381,8 @@ def binop(ev, op, a, b, node, fr):
     if tag == "unit":
         unit = r
     out = Num(r, kind=kind, shape=shape, axes=axes, unit=unit, tag=tag,
-              backend=a.backend or b.backend, dtype=a.dtype or b.dtype)
+              backend=a.backend or b.backend, dtype=a.dtype or b.dtype,
+              isfloat=a.isfloat or b.isfloat or isinstance(op, ast.Div) or kind in ("quantity", "time"))
     return out
 
 
@@ -705,6 +713,15 @@ def val_getattr(ev, obj, name, fr, node):
             return StrV("")
         return BoundBuiltin(obj, name)
     if isinstance(obj, OpaqueV):
+        if obj.what == "array0d":
+            if name == "ndim":
+                return Num(0)
+            if name == "shape":
+                return TupleV([])
+        if obj.what == "strarray" and name == "dtype":
+            return OpaqueV("strdtype")
+        if obj.what == "strdtype" and name == "kind":
+            return StrV("U")
         if obj.what == "nditer" and name == "multi_index":
             return obj.payload["current"]
         return BoundBuiltin(obj, name)
@@ -750,7 +767,7 @@ def num_getattr(ev, obj: Num, name, fr, node):
         return BoolV(obj.shape is None or len(obj.shape) == 0)
     if name == "value":
         if obj.unit is not None:
-            return Num(obj.expr / obj.unit, kind="array" if obj.shape else "number", shape=obj.shape, axes=obj.axes)
+            return Num(obj.expr / obj.unit, kind="array" if obj.shape else "number", shape=obj.shape, axes=obj.axes, isfloat=True)
         usym = sp.Symbol("unitof_" + "".join(c if c.isalnum() else "_" for c in str(obj.expr))[:40], positive=True)
         return Num(obj.expr / usym, kind="array" if obj.shape else "number", shape=obj.shape, axes=obj.axes)
     if name == "unit":
@@ -891,9 +908,79 @@ def slice_indices(ev, s: SliceV, n: Val, fr, node):
     return TupleV([Num(start), Num(stop), Num(step)])
 
 
+def to_decimal(e):
+    """Exact decimal.Decimal of a rational with a terminating decimal expansion (else None)."""
+    import decimal
+    e = sp.nsimplify(e) if not e.is_Rational else e
+    if not e.is_Rational:
+        return None
+    q = int(e.q)
+    while q % 2 == 0:
+        q //= 2
+    while q % 5 == 0:
+        q //= 5
+    if q != 1:
+        return None
+    with decimal.localcontext() as ctx:
+        ctx.prec = 200
+        return decimal.Decimal(int(e.p)) / decimal.Decimal(int(e.q))
+
+
+def py_str_of_number(e):
+    """str(float) for a value that is exactly representable (dyadic, few digits): its exact decimal expansion."""
+    if e.is_Integer:
+        return str(int(e)) + ".0"
+    d = to_decimal(e)
+    if d is None:
+        return None
+    t = format(d, "f")
+    if "." not in t:
+        t += ".0"
+    t = t.rstrip("0")
+    if t.endswith("."):
+        t += "0"
+    digits = len(t.replace("-", "").replace(".", "").lstrip("0"))
+    if digits > 15:
+        return None
+    if abs(d) != 0 and abs(d) < decimal_1e4():
+        return None         # repr switches to exponent notation below 1e-4
+    return t
+
+
+def decimal_1e4():
+    import decimal
+    return decimal.Decimal("0.0001")
+
+
+def py_format(ev, spec_template, args, node, fr):
+    """'{0:1.3f}'.format(x) / '{:02d}'.format(k) for exact numbers, through Python's own format machinery on Decimal/int."""
+    import re
+    vals = []
+    for a in args:
+        if isinstance(a, Num) and a.expr.is_number:
+            if a.expr.is_Integer:
+                vals.append(int(a.expr))
+            else:
+                d = to_decimal(a.expr)
+                if d is None:
+                    ev.unsupported("formatting a number without a terminating decimal expansion", node, fr)
+                vals.append(d)
+        elif isinstance(a, StrV):
+            vals.append(a.s)
+        else:
+            ev.unsupported(f"str.format of {a!r}", node, fr)
+    try:
+        return StrV(spec_template.format(*vals))
+    except Exception as e:  # noqa
+        from .symeval import Raised
+        raise Raised("ValueError", node, f"format failed: {e}")
+
+
 def str_method(ev, recv: StrV, name, args, kwargs, fr, node):
     s = recv.s
     sa = [a.s for a in args if isinstance(a, StrV)]
+    if name == "format" and "{" in s and "<" not in s and args and not kwargs:
+        return py_format(ev, s, args, node, fr)
     if name in ("partition", "rpartition"):
         return TupleV([StrV(x) for x in getattr(s, name)(sa[0])])
     if name in ("strip", "lower", "upper", "lstrip", "rstrip"):
@@ -1271,6 +1358,10 @@ def _np_unary(fn, real=False):
 
 def _minmax(fn):
     def h(ev, args, kwargs, fr, node):
+        if (len(args) >= 2 and isinstance(args[0], Num) and ("keepdims" in kwargs or len(args) == 2 and isinstance(args[1], NoneV))) \
+                or (len(args) == 1 and isinstance(args[0], Num) and ("axis" in kwargs or "keepdims" in kwargs)):
+            x = args[0]
+            return Num(sp.Function("RMin" if fn is sp.Min else "RMax")(x.expr), kind=x.kind, unit=x.unit)
         vals = args
         if len(args) == 1:
             if isinstance(args[0], NdArr):
@@ -1296,6 +1387,28 @@ def _minmax(fn):
             return Num(fn(*es))
         return Num(fn(*es, evaluate=False))
     return h
+
+
+def h_str(ev, args, kwargs, fr, node):
+    x = args[0]
+    if isinstance(x, StrV):
+        return x
+    if isinstance(x, Num) and x.expr.is_number and x.expr.is_real:
+        if x.expr.is_Integer and not x.isfloat:
+            return StrV(str(int(x.expr)))
+        t = py_str_of_number(x.expr)
+        if t is not None:
+            return StrV(t)
+        ev.unsupported("str() of a number whose float repr is not its exact decimal expansion", node, fr)
+    return StrV("<str>")
+
+
+def h_vectorize(ev, args, kwargs, fr, node):
+    func = args[0]
+
+    def apply(ev2, a, k, fr2, node2):
+        return OpaqueV("array0d", ev2.apply(func, a, k, fr2, node2))
+    return PyFuncV(apply, "vectorized")
 
 
 def h_len(ev, args, kwargs, fr, node):
@@ -1326,16 +1439,16 @@ def h_int(ev, args, kwargs, fr, node):
         return Num(int(x.b))
     if isinstance(x, StrV):
         try:
-            return Num(int(x.s))
+            return Num(int(x.s), tag="int")
         except ValueError:
             from .symeval import Raised
             raise Raised("ValueError", node)
     if isinstance(x, Num):
         e = x.expr
-        if e.is_integer:
-            return Num(e)
         if e.is_number:
-            return Num(sp.Integer(int(e)))
+            return Num(sp.Integer(int(e)), tag="int")
+        if e.is_integer:
+            return Num(e, tag="int")
         # int() truncates towards zero
         from .sign import is_nonneg, facts_nonneg
         known = facts_nonneg(fr.facts) if fr is not None else set()
@@ -1610,6 +1723,8 @@ def h_zeros(ev, args, kwargs, fr, node, fill=0):
 
 def h_array(ev, args, kwargs, fr, node):
     x = args[0]
+    if isinstance(x, StrV):
+        return OpaqueV("strarray", x)
     dt = kwargs.get("dtype", args[1] if len(args) > 1 else NONE)
     if isinstance(x, Num) and not isinstance(dt, NoneV) and x.kind in ("array",):
         return x.like(x.expr, dtype=dt)
@@ -2080,9 +2195,10 @@ EXT = {
     "builtins.any": lambda ev, a, k, fr, n: h_all(ev, a, k, fr, n, any_=True),
     "builtins.slice": h_slice, "builtins.min": _minmax(sp.Min), "builtins.max": _minmax(sp.Max),
     "builtins.abs": h_abs, "builtins.sum": h_sum, "builtins.super": h_super,
-    "builtins.float": lambda ev, a, k, fr, n: a[0] if isinstance(a[0], Num) else Num(sp.Rational(a[0].s)),
+    "builtins.float": lambda ev, a, k, fr, n: a[0].like(a[0].expr, isfloat=True, unit=a[0].unit) if isinstance(a[0], Num) else Num(sp.Rational(a[0].s), isfloat=True),
     "builtins.bool": lambda ev, a, k, fr, n: (lambda t: BoolV(t) if t in (True, False) else CondV(t))(ev.truth(a[0], fr, n)),
-    "builtins.str": lambda ev, a, k, fr, n: a[0] if isinstance(a[0], StrV) else StrV("<str>"),
+    "builtins.str": lambda ev, a, k, fr, n: h_str(ev, a, k, fr, n),
+    "numpy.vectorize": h_vectorize,
     "builtins.sorted": lambda ev, a, k, fr, n: ListV(sorted(ev.iterate(a[0], fr, n), key=lambda v: getattr(v, "s", str(v)))),
     "builtins.id": lambda ev, a, k, fr, n: Num(0), "builtins.hex": lambda ev, a, k, fr, n: StrV("0x0"),
     "builtins.round": h_round,
@@ -2109,6 +2225,8 @@ EXT = {
     "numpy.fft.fftshift": _shift_like("FFTSHIFT"), "numpy.fft.ifftshift": _shift_like("IFFTSHIFT"),
     "astropy.units.Quantity": h_quantity, "astropy.coordinates.Angle": lambda ev, a, k, fr, n: h_quantity(ev, a, k, fr, n, angle=True),
     "astropy.coordinates.Longitude": lambda ev, a, k, fr, n: h_quantity(ev, a, k, fr, n, angle=True),
+    "numpy.lexsort": lambda ev, a, k, fr, n: (ev.trace.append(("lexsort", k.get("keys", a[0] if a else NONE), k.get("axis", a[1] if len(a) > 1 else NONE), n)),
+                                              Num(sp.Function("Lexsort")(*[x.expr if isinstance(x, Num) else sp.Symbol("key") for x in ev.iterate(k.get("keys", a[0] if a else NONE), fr, n)])))[1],
     "numpy.count_nonzero": lambda ev, a, k, fr, n: Num(sp.Function("CountNonzero")(a[0].expr)),
     "numpy.all": h_npall, "numpy.any": lambda ev, a, k, fr, n: h_npall(ev, a, k, fr, n, any_=True),
     "astropy.time.Time": h_time, "astropy.time.Time.isclose": h_isclose_time,
